@@ -218,10 +218,10 @@ def _rand_time(rng):
 def direct_oracles(ctx):
     rng = common.rng_for(ctx, 1)
     ic.selfcheck(common.rng_for(ctx, 99), 3)
-    reps = ctx.n(6, 40)
+    reps = ctx.n(30, 300)
     counts: dict = {}
     n_ode = 0
-    ode_budget = ctx.n(60, 600)
+    ode_budget = ctx.n(200, 2000)
     for kind in ic.TRACTABLE_KINDS:
         for mk in ic.METRIC_KINDS:
             for rep in range(reps):
@@ -248,7 +248,7 @@ def direct_oracles(ctx):
                     M = sysw.M
                     period = 2 * np.pi * np.sqrt(np.max(np.linalg.eigvalsh(M)))
                     ctx.case({"check": chk, "kind": kind, "metric": mk, "t": t, "dim": sysw.dim, "rep": rep},
-                             nontrivial=(mk not in ("none", "identity")) or abs(t) > period)
+                             nontrivial=(mk not in ("identity",)) or abs(t) > period)
                     ctx.count(f"{chk}:{kind}:{mk}")
                     if abs(t) > period and kind in ("gaussian", "gaussian_constrained"):
                         ctx.count("t_longer_than_period")
@@ -258,27 +258,17 @@ def direct_oracles(ctx):
                         fails = [(f"{kind} {chk} does not return", f"{chk} did not return within 60 s")]
                     for sig, what in fails:
                         ctx.violation(sig, what, case)
+    for k, v in ic.STATS.items():
+        ctx.count("lib:" + k, v)
     for k, v in counts.items():
         ctx.count(k, v)
-    # probe (reported, not a violation of C07's statement as the class documents restricted support):
-    # implicitly sized *scaled* identity as Gaussian metric
-    try:
-        import mici
-
-        sysm = mici.systems.GaussianEuclideanMetricSystem(
-            neg_log_dens=lambda q: 0.5 * float(q @ q), grad_neg_log_dens=lambda q: q,
-            metric=mici.matrices.PositiveScaledIdentityMatrix(2.0))
-        sysm.h2_flow(mici.states.ChainState(pos=np.ones(2), mom=np.ones(2), dir=1), 0.5)
-        ctx.count("probe:implicit_size_scaled_identity_gaussian_h2_flow_ok")
-    except Exception as e:  # noqa: BLE001
-        ctx.count(f"probe:implicit_size_scaled_identity_gaussian_h2_flow_raises_{type(e).__name__}")
 
 
 def run(ctx: common.Ctx):
     ctx.rule = (
         "every tractable-flow system class (Euclidean, Gaussian-split, dense constrained with/without Hausdorff "
         "density, Gaussian constrained) x every metric type (implicit identity, 1-D / 2-D arrays, sized identity, "
-        "scaled identity, diagonal, dense, Cholesky-factored, eigendecomposed, block-diagonal matrix objects) x "
+        "scaled identity with explicit and implicit size, diagonal, dense, Cholesky-factored, eigendecomposed, block-diagonal matrix objects) x "
         "polynomial targets x dyadic states x times in [-20, 20]; non-trivial = non-identity metric or |t| longer "
         "than the slowest oscillation period"
     )
